@@ -7,6 +7,7 @@ mod e3;
 mod e5;
 mod e6;
 mod e7;
+mod e8;
 mod linemodel;
 
 use common::*;
@@ -45,6 +46,7 @@ fn run_engine(name: &str, ba: &BatchArgs) -> (i32, serde_json::Value) {
         "sockets" => run_batch_ev::<e5::E5>(ba),
         "holder" => run_batch_ev::<e6::E6>(ba),
         "macroproc" => run_batch_ev::<e7::E7>(ba),
+        "sharedclient" => run_batch_ev::<e8::E8>(ba),
         _ => (2, serde_json::Value::Null),
     }
 }
@@ -128,8 +130,8 @@ fn check_c20(tier: Tier, seed: u64, get: &dyn Fn(&str) -> Option<String>, has: &
         tier,
         seed,
         jobs,
-        &[("sinkfault", 60_000, 3_000_000, 20), ("linebuf", 200_000, 10_000_000, 20), ("queue", 60_000, 3_000_000, 0), ("sockets", 40_000, 2_000_000, 0), ("holder", 20_000, 1_000_000, 0), ("macroproc", 600, 30_000, 0)],
-        "sum over the six engines of their own distinct non-trivial cases (each engine's rule is under per_engine); every engine is built with -C overflow-checks=on -C debug-assertions=on, wraps each public API call and each simulated task root in catch_unwind and reports any panic it did not inject itself; generators include capacity 0/1/exact-fit buffers, queue capacity 0/1, empty / long / non-ASCII / delimiter-laden strings, NaN, +-inf, -0.0, i64::MIN, u64::MAX, Duration::MAX, empty and 3000-element packed lists",
+        &[("sinkfault", 60_000, 3_000_000, 20), ("linebuf", 200_000, 10_000_000, 20), ("queue", 60_000, 3_000_000, 0), ("sockets", 40_000, 2_000_000, 0), ("holder", 20_000, 1_000_000, 0), ("macroproc", 600, 30_000, 0), ("sharedclient", 30_000, 1_500_000, 0)],
+        "sum over the seven engines of their own distinct non-trivial cases (each engine's rule is under per_engine); every engine is built with -C overflow-checks=on -C debug-assertions=on, wraps each public API call and each simulated task root in catch_unwind and reports any panic it did not inject itself; generators include capacity 0/1/exact-fit buffers, queue capacity 0/1, empty / long / non-ASCII / delimiter-laden strings, NaN, +-inf, -0.0, i64::MIN, u64::MAX, Duration::MAX, empty and 3000-element packed lists",
         serde_json::json!({
             "what_is_decided_by_simulation": "the history- and fault-dependent part: capacity - written never underflowing after failed flushes, lock().unwrap() after a panic elsewhere, counters not underflowing under any interleaving, unwinding through the worker",
             "what_is_merely_exercised": "the pure-argument part (size-hint arithmetic, casts, formatting of extreme values): input generation riding on the harnesses, not simulation",
@@ -158,6 +160,26 @@ fn check_c06(tier: Tier, seed: u64, get: &dyn Fn(&str) -> Option<String>, has: &
         "linebuf: fault-free histories of emit/flush/drop judged by the reference model (see per_engine.linebuf.rule); queue: histories in which a real BufferedUdpMetricSink sits behind a QueuingMetricSink and flush() is called through the queuing handle concurrently with the worker (see per_engine.queue.rule); distinct non-trivial counts are summed",
         serde_json::json!({}),
         vec!["underlying writes are all-or-nothing (datagram semantics); sockets are stubs".to_string(), "sampling, not proof".to_string()],
+        !has("--no-evidence"),
+        scale,
+    )
+}
+
+/// C03 is served by two engines: sequences of calls on one thread against a scripted sink (E1)
+/// and one client shared by several simulated caller threads (E8).
+fn check_c03(tier: Tier, seed: u64, get: &dyn Fn(&str) -> Option<String>, has: &dyn Fn(&str) -> bool) -> i32 {
+    let scale: f64 = get("--scale").and_then(|s| s.parse().ok()).unwrap_or(1.0);
+    let scale = get("--runs").and_then(|s| s.parse::<f64>().ok()).map(|r| r / 150_000.0).unwrap_or(scale);
+    let jobs = get("--jobs").and_then(|s| s.parse().ok()).unwrap_or_else(|| std::thread::available_parallelism().map(|n| n.get()).unwrap_or(4));
+    check_multi(
+        "C03",
+        tier,
+        seed,
+        jobs,
+        &[("sinkfault", 150_000, 10_000_000, 10), ("sharedclient", 120_000, 10_000_000, 0)],
+        "sinkfault: one caller thread, sequences of calls over every entry point and call form against a sink whose i-th emit answers from a fault plan (see per_engine.sinkfault.rule); sharedclient: one client shared by 2..4 simulated caller threads with scheduling points inside the sink and inside the error handler, judged per calling thread (see per_engine.sharedclient.rule); distinct non-trivial counts are summed",
+        serde_json::json!({}),
+        vec!["the client's sink is scripted; the text of the line is not compared with a formatter model (that is C01/C04), only 'what was returned is what was emitted'".to_string(), "sampling, not proof".to_string()],
         !has("--no-evidence"),
         scale,
     )
@@ -221,6 +243,9 @@ fn main() {
             if prop == "C20" {
                 std::process::exit(check_c20(tier, seed, &get, &has));
             }
+            if prop == "C03" {
+                std::process::exit(check_c03(tier, seed, &get, &has));
+            }
             if prop == "C06" {
                 std::process::exit(check_c06(tier, seed, &get, &has));
             }
@@ -279,6 +304,7 @@ fn main() {
                 "sockets" => replay::<e5::E5>(&rf, quiet),
                 "holder" => replay::<e6::E6>(&rf, quiet),
                 "macroproc" => replay::<e7::E7>(&rf, quiet),
+                "sharedclient" => replay::<e8::E8>(&rf, quiet),
                 other => {
                     eprintln!("HARNESS-ERROR: unknown engine {other}");
                     2
@@ -309,6 +335,7 @@ fn main() {
                 ("sockets/C14", selftest::<e5::E5>("C14", seeds, 16, DEFAULT_SEED)),
                 ("holder/C18", selftest::<e6::E6>("C18", seeds, 16, DEFAULT_SEED)),
                 ("sinkfault/C03", selftest::<e1::E1>("C03", seeds, 16, DEFAULT_SEED)),
+                ("sharedclient/C03", selftest::<e8::E8>("C03", seeds, 16, DEFAULT_SEED)),
                 ("macroproc/C17", selftest::<e7::E7>("C17", seeds.min(200), 16, DEFAULT_SEED)),
             ] {
                 match r {
